@@ -30,7 +30,7 @@ svars == <<inp, st>>
 \* Input: [kind: [async, try, spawn],
 \*         opts: Seq(option name),
 \*         elems: Seq(element)]          branches and handlers in source order
-\* element = [t: "branch", let: "none"|"ident"|"mut"|"tuple", empty: BOOLEAN, items: Seq(item)]
+\* element = [t: "branch", let: "none" | IdentLets | NonIdentLets, empty: BOOLEAN, items: Seq(item)]
 \*         | [t: "handler", h: "map"|"and_then"|"then"]
 \* item = [op: operator name, deferred: BOOLEAN, mv: "none"|"wrap"|"unwrap", opnd: "ok"|"missing"|"na"]
 \*   op = "unwrap" is `<<<`; mv = "wrap" means `>>>` follows the operator
@@ -40,6 +40,10 @@ AllOps == WrapperOps \cup {"then", "dot", "or", "chain", "collect", "enumerate",
 NoOperandOps == {"flatten", "enumerate", "collect", "unzip"}    \* operand may be absent
 OptionNames == {"path", "joiner", "transpose", "lazy"}
 OptionOrder == <<"path", "joiner", "transpose", "lazy">>          \* fixed peek order inside a round
+
+\* `let <pattern> =` in front of a branch: identifier patterns name the branch, every other pattern is an error
+IdentLets == {"ident", "mut", "ref"}                                  \* let x / let mut x / let ref x
+NonIdentLets == {"tuple", "wild", "paren", "tstruct", "refpat", "slice", "lit", "struct"}
 
 It(op, d, mv) == [op |-> op, deferred |-> d, mv |-> mv, opnd |-> IF mv = "wrap" \/ op = "unwrap" \/ op \in NoOperandOps THEN "na" ELSE "ok"]
 Br(lt, items) == [t |-> "branch", let |-> lt, empty |-> FALSE, items |-> items, h |-> "none"]
@@ -66,7 +70,7 @@ BalancedFrom(items, i, open) ==
 
 ValidBranch(b) ==
   /\ ~b.empty
-  /\ b.let \in {"none", "ident", "mut"}
+  /\ b.let \in {"none"} \cup IdentLets
   /\ \A i \in 1 .. Len(b.items) : b.items[i].opnd # "missing"
   /\ BalancedFrom(b.items, 1, 0)
 
@@ -114,7 +118,7 @@ ElemStart(I, s) ==
        THEN (IF s.nh > 0 THEN Fail(s, "syn_error", "Multiple handler cases")
              ELSE [s EXCEPT !.nh = 1, !.ei = s.ei + 1])
        ELSE IF e.empty THEN Fail(s, "syn_error", "Chain first expr can't be empty")
-       ELSE IF e.let = "tuple" THEN Fail(s, "syn_error", "Incorrect `let` pattern")
+       ELSE IF e.let \in NonIdentLets THEN Fail(s, "syn_error", "Incorrect `let` pattern")
        ELSE [s EXCEPT !.ph = "items", !.ii = 1, !.wc = 0]
 
 \* The chain builder consumes one operator of the current branch (builder.rs loop body).
@@ -194,8 +198,19 @@ FamElems(dummy) ==
       H == {Hd(h) : h \in {"map", "and_then", "then"}}
   IN  {Inp(kd, <<>>, es) : kd \in Kinds8, es \in SeqsUpTo(B \cup H, IF Tier = "quick" THEN 3 ELSE 4)}
 
+\* every `let` pattern kind x position among 1..3 branches x with/without actions, deferred actions, handler x kinds
+FamLets(dummy) ==
+  LET Items == {<<>>, <<Plain("map")>>, <<Plain("map"), It("and_then", TRUE, "none")>>}
+      Plainb == Br("none", <<Plain("map")>>)
+      One == {Br(l, its) : l \in IdentLets \cup NonIdentLets, its \in Items}
+      Bs == {<<b>> : b \in One} \cup {<<b, Plainb>> : b \in One} \cup {<<Plainb, b>> : b \in One}
+              \cup {<<Plainb, Plainb, b>> : b \in One} \cup {<<b1, b2>> : b1 \in {Br(l, <<>>) : l \in NonIdentLets}, b2 \in {Br(l, <<>>) : l \in IdentLets \cup NonIdentLets}}
+      Hs == {<<>>} \cup (IF Tier = "quick" THEN {<<Hd("map")>>, <<Hd("then")>>} ELSE {<<Hd(h)>> : h \in {"map", "and_then", "then"}})
+  IN  {Inp(kd, <<>>, bs \o h) : kd \in Kinds8, bs \in Bs, h \in Hs}
+
 Inputs(dummy) ==
   TLCEval(CASE Family = "wrap" -> FamWrap(0)
+            [] Family = "lets" -> FamLets(0)
             [] Family = "ops" -> FamOps(0)
             [] Family = "opts" -> FamOpts(0)
             [] Family = "elems" -> FamElems(0))
